@@ -397,7 +397,7 @@ def run_lines(exe, lines, full=False, timeout=1200, extra_env=None, mem_gb=24):
             # kept for diagnosis only (the case a background goroutine dies on is not always the case that started it)
             d = os.path.join(ROOT, "build", "tmp")
             os.makedirs(d, exist_ok=True)
-            with open(os.path.join(d, "last-crash-%s.txt" % os.path.basename(exe)), "w") as f:
+            with open(os.path.join(d, "last-crash-%s-%s.txt" % (os.path.basename(exe), re.sub(r"\W", "", lines[len(outs) - 1].split(".")[0])[:12])), "w") as f:
                 f.write("case index %d: %s\nprevious: %s\n\n%s" % (len(outs) - 1, lines[len(outs) - 1][:2000],
                                                                     lines[len(outs) - 2][:2000] if len(outs) > 1 else "-", err[-20000:]))
         except Exception:
